@@ -15,7 +15,8 @@
 #include "c15_common.h"
 #include "libzvbi.h"
 
-#define MAXBLK 12
+#define MAXBLK 260
+#define MAXGOT 400
 #define MAXPKT 700          /* data packets of our stream */
 #define MAXWIRE 2600
 
@@ -29,6 +30,12 @@ struct blk {
 	int sh_split, ends_at_end;
 	int strict, quirk;              /* expectation: 0 must not, 1 may, 2 must */
 	int ndeliv;
+	/* long mode */
+	int cbf, fired;                 /* the callback returns FALSE for this block; it did so in the current pass */
+	int rst_cut;                    /* vbi_pfc_demux_reset() was called while the block was in progress */
+	int rst_hit;                    /* lies (partly) in rows fed after a reset and before the next page header */
+	int cbf_zone;                   /* starts between a callback that returned FALSE and the next page header */
+	int qrst_cut;                   /* in progress when a packet of the other stream with an unreadable address / page number came by */
 };
 
 struct dpkt {                           /* one data packet of our stream (linear numbering) */
@@ -42,25 +49,30 @@ struct dpkt {                           /* one data packet of our stream (linear
 	int err_off;                    /* >=0: uncorrectable Hamming error at this offset (separator, header or filler byte) */
 	int qkilled;                    /* ignored by a receiver that waits for the next page header after any loss */
 	int err_vis;                    /* the error byte is one that such a receiver examines at all */
+	/* long mode */
+	int rst;                        /* vbi_pfc_demux_reset() right before this row is fed, its page header came before the reset */
+	int cbf_after;                  /* a callback returned FALSE while this row was decoded */
+	int qrst;                       /* a packet of the other stream with an unreadable address / page number right before this row */
 };
 
-struct page { int first, n, ci, hdr_killed; };
+struct page { int first, n, ci, hdr_killed; int rst_before; /* long mode: reset between the previous page's rows and this header */ int qrst_before; /* same for qrst */ };
 
 enum { W_FOREIGN = 0, W_HDR, W_DATA };
-struct wpk { uint8_t b[42]; int type, idx; int damaged; /* uncorrectable Hamming error somewhere */ int touched; /* any fault applied */
+struct wpk { uint8_t b[42]; int type, idx; int strm; /* long mode: which of the two streams */ int damaged; /* uncorrectable Hamming error somewhere */ int touched; /* any fault applied */
 	int may_false; /* intact, but completes a structure header whose first part was damaged in the previous packet */ };
 
-static struct blk blk[MAXBLK];
+/* The generator and the oracle work on one stream at a time; the long mode has two and switches (use_stream) */
+static struct blk blk_st[2][MAXBLK], *blk = blk_st[0];
 static int n_blk;
 static struct dpkt *dp;
 static int n_dp;
-static struct page pg[MAXPKT];
+static struct page pg_st[2][MAXPKT], *pg = pg_st[0];
 static int n_pg;
 static struct wpk *wp;
 static int n_wp;
 
 struct got { unsigned app, size; uint8_t *data; int bad_ident; };
-static struct got got[64];
+static struct got got_st[2][MAXGOT], *got = got_st[0];
 static int n_got, sel_pgno, sel_stream;
 
 /* ---- layout ---- */
@@ -191,12 +203,13 @@ static struct wpk *push(int type, int idx)
 }
 
 /* a decoy page: same page other stream, or other page of the magazine, carrying well-formed PFC blocks */
-static void decoy_page(struct vf_rng *r, int pgno, int stream)
+static void decoy_page_x(struct vf_rng *r, int pgno, int stream, int xpgno, int xstream)
 {
 	struct wpk *w;
 	int dpg = pgno, dst = stream, n = vf_range(r, 1, 4), row, k;
 	if (vf_chance(r, 1, 2)) dst = (stream + 1 + (int)vf_below(r, 15)) & 15;
 	else dpg = (pgno & 0x700) | ((pgno + 1 + (int)vf_below(r, 254)) & 0xFF), dpg = dpg == pgno ? pgno ^ 1 : dpg;
+	if (xpgno >= 0 && !((dpg ^ xpgno) & 0x7FF) && dst == xstream) return;     /* long mode: that is the other context's stream, not a decoy */
 	if (!(w = push(W_FOREIGN, 0))) return;
 	make_header(r, w->b, dpg, dst, (int)vf_below(r, 16), n);
 	for (row = 1; row <= n; row++) {
@@ -211,16 +224,24 @@ static void decoy_page(struct vf_rng *r, int pgno, int stream)
 	}
 }
 
-static void noise(struct vf_rng *r, int pgno, int in_page)
+static void decoy_page(struct vf_rng *r, int pgno, int stream) { decoy_page_x(r, pgno, stream, -1, -1); }
+
+/* xmag: a magazine (0..7) in which no stray rows may appear (long mode: the other stream's), -1 none */
+static void noise_x(struct vf_rng *r, int pgno, int in_page, int xmag)
 {
 	struct wpk *w = push(W_FOREIGN, 0);
 	int mag = (pgno >> 8) & 7;
 	if (!w) return;
 	if (in_page && vf_chance(r, 1, 3))
 		c15_plain_packet(r, w->b, mag, vf_range(r, 26, 31));          /* enhancement / IDL rows of our magazine */
-	else
-		c15_plain_packet(r, w->b, (mag + 1 + (int)vf_below(r, 7)) & 7, vf_range(r, 1, 31));     /* rows of another magazine */
+	else {
+		int y = vf_range(r, 1, 31), m = (mag + 1 + (int)vf_below(r, 7)) & 7;     /* this order: what the compiler made of the former one-line call */
+		if (m == xmag) y = 26 + y % 6;
+		c15_plain_packet(r, w->b, m, y);                               /* rows of another magazine */
+	}
 }
+
+static void noise(struct vf_rng *r, int pgno, int in_page) { noise_x(r, pgno, in_page, -1); }
 
 /* ---- consumer ---- */
 
@@ -228,7 +249,7 @@ static vbi_bool pfc_cb(vbi_pfc_demux *dx, void *ud, const vbi_pfc_block *bk)
 {
 	(void)dx; (void)ud;
 	vf_log("callback: app %u size %u\n", bk->application_id, bk->block_size);
-	if (n_got < 64) {
+	if (n_got < MAXGOT) {
 		struct got *g = &got[n_got++];
 		unsigned n = bk->block_size > 2048 ? 2048 : bk->block_size;
 		g->app = bk->application_id; g->size = bk->block_size;
@@ -248,6 +269,13 @@ static void free_got(void)
 
 /* ---- expectation ---- */
 
+/* Long mode with two streams: a packet of the other stream whose address (or, in a page header, page number /
+ * sub-code as far as this receiver has to read it) carries an uncorrectable error.  Nothing of this stream is
+ * lost, so the strict model ignores it; the receiver of the open finding (any uncorrectable error -> wait for
+ * the next page header) cannot tell such a packet from one of its own.  Only consulted when the finding's model
+ * does not explain the deliveries without it. */
+static int use_xevents, n_xevents;
+
 static void classify(void)
 {
 	int p, i, o, g;
@@ -261,10 +289,17 @@ static void classify(void)
 	   belong to the next page (that page is then the one discarded). */
 	int synced = 0, pending = -1;
 	for (g = 0; g < n_pg; g++) {
-		int dead = pg[g].hdr_killed;
+		int dead = pg[g].hdr_killed, rdead = 0, qrdead = 0;
+		if (pg[g].rst_before) { synced = 0; pending = -1; }     /* long mode: reset between two pages */
+		if (use_xevents && pg[g].qrst_before) { synced = 0; pending = -1; }
 		for (p = pg[g].first; p < pg[g].first + pg[g].n; p++) {
 			if (pg[g].hdr_killed) dp[p].killed = 1;
+			/* long mode: rows fed after vbi_pfc_demux_reset() belong to no page until a header comes */
+			if (dp[p].rst) rdead = 1;
+			if (rdead) dp[p].killed = 1;
 			if (dp[p].killed) { dead = 1; pending = -1; }
+			if (use_xevents && dp[p].qrst) qrdead = 1;
+			if (qrdead) { dead = 1; pending = -1; }
 			if (!dead && pending >= 0) {
 				if (dp[p].kind[0] == K_SH && dp[p].owner[0] == pending) dead = 1;
 				pending = -1;
@@ -281,6 +316,9 @@ static void classify(void)
 					dead = 1;
 			}
 			if (!dead && dp[p].bp != 13) synced = 1;
+			/* long mode: what the receiver does after a callback returned FALSE is not documented; the
+			   one under test resets itself, i.e. waits for the next page header */
+			if (dp[p].cbf_after) { dead = 1; pending = -1; }
 		}
 		if (dead) { synced = 0; pending = -1; }
 	}
@@ -300,9 +338,14 @@ static void classify(void)
 				if (hi >= e && dp[p].err_vis) qdmg = 1;   /* any byte at or after an error the receiver notices */
 			}
 		}
-		if (dmg) qdmg = 1;
+		if (b->rst_cut) dmg = 1;
+		if (dmg || (use_xevents && b->qrst_cut)) qdmg = 1;
 		b->strict = dmg ? 0 : (touch_err || b->size == 0) ? 1 : 2;
 		b->quirk = qdmg ? 0 : (touch_err || b->size == 0) ? 1 : 2;
+		if (b->cbf_zone) {              /* not specified: may be delivered or not */
+			if (b->strict == 2) b->strict = 1;
+			b->quirk = dmg ? 0 : 1;
+		}
 	}
 }
 
@@ -313,6 +356,18 @@ static const char *describe(int i)
 	snprintf(s, sizeof s, "block %d (app %d, %d bytes, separator in packet %d (page %d row %d) offset %d, last byte in packet %d)",
 		 i, b->app, b->size, b->first_pkt, dp[b->first_pkt].page, dp[b->first_pkt].row, b->bs_off, b->last_pkt);
 	return s;
+}
+
+/* do the deliveries agree with the receiver of the open finding?  0 yes, 1 a block it must deliver is missing, 2 it
+ * delivered a block that receiver cannot have */
+static int quirk_explains(int *bad)
+{
+	int i;
+	for (i = 0; i < n_blk; i++)
+		if (blk[i].quirk == 2 && !blk[i].ndeliv) { *bad = i; return 1; }
+	for (i = 0; i < n_blk; i++)
+		if (blk[i].quirk == 0 && blk[i].ndeliv) { *bad = i; return 2; }
+	return 0;
 }
 
 static void evaluate(const char *iface, int faults)
@@ -326,6 +381,15 @@ static void evaluate(const char *iface, int faults)
 		if (d->size == 0) continue;
 		for (j = cursor; j < n_blk; j++)
 			if ((unsigned)blk[j].app == d->app) break;
+		if (n_blk > 32 && d->size <= 2048) {    /* long mode: application ids repeat every 32 blocks, and 32 blocks in a row can be lost */
+			int jj, exact = -1;     /* of several blocks that look alike, one that may be delivered */
+			for (jj = j; jj < n_blk; jj++)
+				if ((unsigned)blk[jj].app == d->app && (unsigned)blk[jj].size == d->size && !memcmp(blk[jj].data, d->data, d->size)) {
+					if (exact < 0) exact = jj;
+					if (blk[jj].strict != 0) { exact = jj; break; }
+				}
+			if (exact >= 0) j = exact;
+		}
 		if (j >= n_blk || (unsigned)blk[j].size != d->size || d->size > 2048 || memcmp(blk[j].data, d->data, d->size)) {
 			unsigned n = d->size > 24 ? 24 : d->size;
 			int known = 0, jj;
@@ -343,6 +407,11 @@ static void evaluate(const char *iface, int faults)
 		}
 		blk[j].ndeliv++;
 		cursor = j + 1;
+		if (blk[j].strict == 0 && blk[j].rst_hit) {
+			vf_fail("model:C15:pfc:delivered-across-reset", "%s: %s was delivered although vbi_pfc_demux_reset() was called %s", iface, describe(j),
+				blk[j].rst_cut ? "while it was being received" : "before its rows and no page header came in between");
+			return;
+		}
 		if (blk[j].strict == 0) {
 			vf_fail("model:C15:pfc:damaged-block-delivered", "%s: %s lies partly in a lost or Hamming-damaged packet but was delivered", iface, describe(j));
 			return;
@@ -351,21 +420,78 @@ static void evaluate(const char *iface, int faults)
 	for (i = 0; i < n_blk; i++)
 		if (blk[i].strict == 2 && !blk[i].ndeliv) { strict_ok = 0; if (first_missing < 0) first_missing = i; }
 	if (strict_ok) return;
-	for (i = 0; i < n_blk; i++)
-		if (blk[i].quirk == 2 && !blk[i].ndeliv) {
+	{
+		int bad, why = quirk_explains(&bad), with_x = 0;
+		if (why && n_xevents) {         /* long mode, two streams */
+			use_xevents = 1; classify();
+			if (0 == quirk_explains(&bad)) { why = 0; with_x = 1; }
+			use_xevents = 0; classify();
+			if (why) quirk_explains(&bad);
+		}
+		if (why == 1) {
 			vf_fail("model:C15:pfc:not-delivered", "%s: %s is undamaged%s but was not delivered (%d blocks sent, %d delivered)",
-				iface, describe(i), faults ? " and lies after the receiver had a page header to resynchronise on" : " (no faults in this stream)", n_blk, n_got);
+				iface, describe(bad), faults ? " and lies after the receiver had a page header to resynchronise on" : " (no faults in this stream)", n_blk, n_got);
 			return;
 		}
-	for (i = 0; i < n_blk; i++)
-		if (blk[i].quirk == 0 && blk[i].ndeliv) {     /* cannot happen if strict==0 was checked, but quirk==0 is wider */
-			vf_fail("model:C15:pfc:not-delivered", "%s: inconsistent resynchronisation: %s delivered although the rest of its page was discarded", iface, describe(i));
+		if (why == 2) {     /* cannot happen if strict==0 was checked, but quirk==0 is wider */
+			vf_fail("model:C15:pfc:not-delivered", "%s: inconsistent resynchronisation: %s delivered although the rest of its page was discarded", iface, describe(bad));
 			return;
 		}
-	vf_fail("model:C15:pfc:Q-rest-of-page-discarded",
-		"%s: %s is undamaged but not delivered; the difference to 'exactly the damaged blocks are missing' is explained exactly by the receiver ignoring every packet after a loss until the next page header",
-		iface, describe(first_missing));
-	vf_count("pfc_quirk_rest_of_page", 1);
+		vf_fail("model:C15:pfc:Q-rest-of-page-discarded",
+			"%s: %s is undamaged but not delivered; the difference to 'exactly the damaged blocks are missing' is explained exactly by the receiver ignoring every packet after a loss until the next page header%s",
+			iface, describe(first_missing), with_x ? " (counting as a loss a packet of another stream whose address or page number is unreadable: the receiver cannot tell it from one of its own)" : "");
+		vf_count("pfc_quirk_rest_of_page", 1);
+		if (with_x) vf_count("pfc_long_quirk_by_unreadable_packet_of_other_stream", 1);
+	}
+}
+
+static void apply_fault(struct vf_rng *r, int wi, int *kinds)
+{
+	struct wpk *w = &wp[wi];
+	w->touched = 1;
+	if (w->type == W_HDR) {
+		int g2 = w->idx;
+		if (vf_chance(r, 1, 4)) {                    /* correctable */
+			int o = (int)vf_below(r, 10);
+			w->b[o] = c15_flip1(r, w->b[o]); *kinds |= 16;
+			return;
+		}
+		pg[g2].hdr_killed = 1;
+		if (vf_chance(r, 1, 2)) {                    /* dropped */
+			memmove(w, w + 1, sizeof *w * (size_t)(n_wp - wi - 1)); n_wp--; *kinds |= 2;
+		} else {
+			int o = (int)vf_below(r, 8);
+			w->b[o] = c15_flip2(r, w->b[o]); w->damaged = 1; *kinds |= 4;
+		}
+	} else {
+		struct dpkt *q = &dp[w->idx];
+		switch (vf_below(r, 5)) {
+		case 0: case 1:                               /* dropped */
+			q->killed = q->dropped = 1;
+			memmove(w, w + 1, sizeof *w * (size_t)(n_wp - wi - 1)); n_wp--; *kinds |= 1;
+			break;
+		case 2: {                                     /* packet address or block pointer */
+			int o = (int)vf_below(r, 3);
+			w->b[o] = c15_flip2(r, w->b[o]); w->damaged = 1; q->killed = 1; *kinds |= 4;
+			break; }
+		case 3: {                                     /* a Hamming protected byte of the data area that a receiver reads
+							         whether or not it was in a block at the start of the packet:
+							         separators, structure headers, fillers behind the separator
+							         BP points to */
+			int o, t = 0;
+#define ELIGIBLE(o) (q->kind[o] == K_BS || q->kind[o] == K_SH || (q->kind[o] == K_FILL && q->bp != 13 && (o) >= 3 * q->bp))
+			do o = (int)vf_below(r, 39); while (!ELIGIBLE(o) && ++t < 300);
+			if (!ELIGIBLE(o)) { q->killed = q->dropped = 1; memmove(w, w + 1, sizeof *w * (size_t)(n_wp - wi - 1)); n_wp--; *kinds |= 1; break; }
+			w->b[3 + o] = c15_flip2(r, w->b[3 + o]); w->damaged = 1; q->err_off = o; *kinds |= 8;
+			break; }
+		default: {                                    /* correctable single bit error */
+			int o, t = 0;
+			do o = (int)vf_below(r, 42); while (o >= 3 && q->kind[o - 3] == K_DATA && ++t < 200);
+			if (o >= 3 && q->kind[o - 3] == K_DATA) o = 2;
+			w->b[o] = c15_flip1(r, w->b[o]); *kinds |= 16;
+			break; }
+		}
+	}
 }
 
 static int size_class(int s) { return s == 0 ? 0 : s < 4 ? 1 : s < 35 ? 2 : s < 200 ? 3 : s < 2047 ? 4 : 5; }
@@ -485,50 +611,7 @@ int c15_pfc_case(struct vf_rng *r, long idx)
 		do wi = (int)vf_below(r, (unsigned)n_wp); while ((wp[wi].type == W_FOREIGN || wp[wi].touched) && ++tries < 100);
 		w = &wp[wi];
 		if (w->type == W_FOREIGN || w->touched) break;
-		w->touched = 1;
-		if (w->type == W_HDR) {
-			int g2 = w->idx;
-			if (vf_chance(r, 1, 4)) {                    /* correctable */
-				int o = (int)vf_below(r, 10);
-				w->b[o] = c15_flip1(r, w->b[o]); kinds |= 16;
-				continue;
-			}
-			pg[g2].hdr_killed = 1;
-			if (vf_chance(r, 1, 2)) {                    /* dropped */
-				memmove(w, w + 1, sizeof *w * (size_t)(n_wp - wi - 1)); n_wp--; kinds |= 2;
-			} else {
-				int o = (int)vf_below(r, 8);
-				w->b[o] = c15_flip2(r, w->b[o]); w->damaged = 1; kinds |= 4;
-			}
-		} else {
-			struct dpkt *q = &dp[w->idx];
-			switch (vf_below(r, 5)) {
-			case 0: case 1:                               /* dropped */
-				q->killed = q->dropped = 1;
-				memmove(w, w + 1, sizeof *w * (size_t)(n_wp - wi - 1)); n_wp--; kinds |= 1;
-				break;
-			case 2: {                                     /* packet address or block pointer */
-				int o = (int)vf_below(r, 3);
-				w->b[o] = c15_flip2(r, w->b[o]); w->damaged = 1; q->killed = 1; kinds |= 4;
-				break; }
-			case 3: {                                     /* a Hamming protected byte of the data area that a receiver reads
-								         whether or not it was in a block at the start of the packet:
-								         separators, structure headers, fillers behind the separator
-								         BP points to */
-				int o, t = 0;
-#define ELIGIBLE(o) (q->kind[o] == K_BS || q->kind[o] == K_SH || (q->kind[o] == K_FILL && q->bp != 13 && (o) >= 3 * q->bp))
-				do o = (int)vf_below(r, 39); while (!ELIGIBLE(o) && ++t < 300);
-				if (!ELIGIBLE(o)) { q->killed = q->dropped = 1; memmove(w, w + 1, sizeof *w * (size_t)(n_wp - wi - 1)); n_wp--; kinds |= 1; break; }
-				w->b[3 + o] = c15_flip2(r, w->b[3 + o]); w->damaged = 1; q->err_off = o; kinds |= 8;
-				break; }
-			default: {                                    /* correctable single bit error */
-				int o, t = 0;
-				do o = (int)vf_below(r, 42); while (o >= 3 && q->kind[o - 3] == K_DATA && ++t < 200);
-				if (o >= 3 && q->kind[o - 3] == K_DATA) o = 2;
-				w->b[o] = c15_flip1(r, w->b[o]); kinds |= 16;
-				break; }
-			}
-		}
+		apply_fault(r, wi, &kinds);
 	}
 	classify();
 	/* Rows carry no page identity.  When a header is lost and the row numbers around it continue
@@ -621,6 +704,501 @@ out:
 	for (i = 0; i < n_blk; i++) { free(blk[i].data); blk[i].data = NULL; }
 	free_got();
 	return 1;
+}
+
+/* =====================================================================
+ * Long streams (--mode pfc-long): 30-200 blocks over many pages, several
+ * independent faults, vbi_pfc_demux_reset() between packets, callbacks
+ * returning FALSE, frames with several rows of one page, two contexts (two
+ * streams) fed from the same multiplex.
+ *
+ * Reset: "Resets the PFC demux context, useful for example after a channel
+ * change."  A row carries its magazine and row number only; which page it
+ * belongs to is known from the page header before it.  A context that was
+ * reset has no such header: rows fed after the reset and before the next
+ * header of the stream must not contribute to a delivery, and a block that
+ * was in progress is gone.  Blocks that start after that header are due.
+ *
+ * Callback returning FALSE: documented is the return value of feed ("FALSE
+ * on error, will be returned by vbi_pfc_demux_feed()"), nothing about the
+ * state.  Blocks that start between that callback and the next page header
+ * may or may not be delivered; from the next page header on everything is
+ * due again ("the demultiplexer stays usable").
+ * ===================================================================== */
+
+struct pstrm {
+	int pgno, stream;
+	int n_blk, n_dp, n_pg, n_got;
+	struct dpkt *dp;
+	int *dpwire;                    /* wire index of each data packet, -1 when dropped */
+	vbi_pfc_demux *dx;
+	int cb_cursor, cbf_now;
+	int n_reset, reset_at[4];
+	int alias, kinds, nfired, ncut, n_x;
+};
+static struct pstrm ps[2];
+static int cur_ps;
+
+static void use_stream(int k)
+{
+	ps[cur_ps].n_blk = n_blk; ps[cur_ps].n_dp = n_dp; ps[cur_ps].n_pg = n_pg;
+	cur_ps = k;
+	blk = blk_st[k]; pg = pg_st[k]; got = got_st[k]; dp = ps[k].dp;
+	n_blk = ps[k].n_blk; n_dp = ps[k].n_dp; n_pg = ps[k].n_pg; n_got = ps[k].n_got;
+	sel_pgno = ps[k].pgno; sel_stream = ps[k].stream;
+}
+
+static vbi_bool pfc_long_cb(vbi_pfc_demux *dx, void *ud, const vbi_pfc_block *bk)
+{
+	struct pstrm *t = ud;
+	int k = (int)(t - ps), j;
+	unsigned n = bk->block_size > 2048 ? 2048 : bk->block_size;
+	(void)dx;
+	vf_log("stream %d callback: app %u size %u\n", k, bk->application_id, bk->block_size);
+	if (t->n_got < MAXGOT) {
+		struct got *g = &got_st[k][t->n_got++];
+		g->app = bk->application_id; g->size = bk->block_size;
+		g->bad_ident = (bk->pgno != t->pgno || (int)bk->stream != t->stream);
+		g->data = malloc(n ? n : 1);
+		if (g->data) memcpy(g->data, bk->block, n);
+	}
+	for (j = t->cb_cursor; j < t->n_blk; j++) {
+		struct blk *b = &blk_st[k][j];
+		if ((unsigned)b->app == bk->application_id && (unsigned)b->size == bk->block_size && bk->block_size <= 2048
+		    && !memcmp(b->data, bk->block, bk->block_size)) break;
+	}
+	if (j >= t->n_blk) return TRUE;         /* not a block we sent: evaluate() will say so */
+	t->cb_cursor = j + 1;
+	if (blk_st[k][j].cbf) {
+		blk_st[k][j].fired = 1;
+		t->cbf_now = j;
+		return FALSE;
+	}
+	return TRUE;
+}
+
+static void free_got_k(int k)
+{
+	int i;
+	for (i = 0; i < ps[k].n_got; i++) free(got_st[k][i].data);
+	ps[k].n_got = 0;
+	if (cur_ps == k) n_got = 0;
+}
+
+/* expectation for the current stream after a pass: resets are part of the case, callbacks that returned FALSE
+ * are known from the pass */
+static void classify_long(void)
+{
+	int i, j, p;
+	for (p = 0; p < n_dp; p++) dp[p].cbf_after = 0;
+	for (i = 0; i < n_blk; i++) blk[i].cbf_zone = 0;
+	for (i = 0; i < n_blk; i++)
+		if (blk[i].fired) {
+			int pf = blk[i].last_pkt;
+			dp[pf].cbf_after = 1;
+			for (j = i + 1; j < n_blk; j++)
+				if (blk[j].first_pkt >= pf && dp[blk[j].first_pkt].page == dp[pf].page) blk[j].cbf_zone = 1;
+		}
+	classify();
+}
+
+static void judge_long(int k, const char *iface)
+{
+	int i;
+	use_stream(k);
+	n_got = ps[k].n_got;
+	ps[k].nfired = 0;
+	for (i = 0; i < n_blk; i++) ps[k].nfired += blk[i].fired;
+	if (!ps[k].alias) {
+		n_xevents = ps[k].n_x; use_xevents = 0;
+		classify_long();
+		if (vf_verbose)
+			for (i = 0; i < n_blk; i++)
+				vf_log("%s stream %d %s strict=%d quirk=%d cbf=%d fired=%d zone=%d rst_cut=%d rst_hit=%d\n", iface, k, describe(i),
+				       blk[i].strict, blk[i].quirk, blk[i].cbf, blk[i].fired, blk[i].cbf_zone, blk[i].rst_cut, blk[i].rst_hit);
+		evaluate(iface, ps[k].kinds & ~16);
+	}
+}
+
+/* vbi_pfc_demux_reset() of the current stream's context right before wire packet wi is fed (quirk_only: the
+ * receiver of the open finding resets itself there, see use_xevents) */
+static void mark_reset(int k, int wi, int quirk_only)
+{
+	int j, P, Pend;
+	for (j = wi; j < n_wp; j++) if (wp[j].type != W_FOREIGN && wp[j].strm == k) break;
+	if (j >= n_wp) return;
+	if (wp[j].type == W_HDR) {
+		if (quirk_only) pg[wp[j].idx].qrst_before = 1; else pg[wp[j].idx].rst_before = 1;
+		P = pg[wp[j].idx].first; Pend = P - 1;
+	} else {
+		P = wp[j].idx; Pend = pg[dp[P].page].first + pg[dp[P].page].n - 1;
+		if (quirk_only) dp[P].qrst = 1; else dp[P].rst = 1;
+	}
+	for (j = 0; j < n_blk; j++) {
+		if (quirk_only) {
+			if (blk[j].first_pkt < P && blk[j].last_pkt >= P) blk[j].qrst_cut = 1;
+			continue;
+		}
+		if (blk[j].first_pkt < P && blk[j].last_pkt >= P) { if (!blk[j].rst_cut) ps[k].ncut++; blk[j].rst_cut = blk[j].rst_hit = 1; }
+		if (blk[j].first_pkt <= Pend && blk[j].last_pkt >= P) blk[j].rst_hit = 1;
+	}
+}
+
+static void start_pass(int k)
+{
+	int i;
+	ps[k].dx = vbi_pfc_demux_new(ps[k].pgno, (unsigned)ps[k].stream, pfc_long_cb, &ps[k]);
+	ps[k].cb_cursor = 0; ps[k].cbf_now = -1;
+	for (i = 0; i < ps[k].n_blk; i++) blk_st[k][i].fired = 0;
+}
+
+static void do_pfc_resets(int k, int wi)
+{
+	int i;
+	for (i = 0; i < ps[k].n_reset; i++)
+		if (ps[k].reset_at[i] == wi) { vf_log("stream %d: reset before wire %d\n", k, wi); vbi_pfc_demux_reset(ps[k].dx); }
+}
+
+static int reset_here(int nstr, int wi)
+{
+	int k, i;
+	for (k = 0; k < nstr; k++)
+		for (i = 0; i < ps[k].n_reset; i++)
+			if (ps[k].reset_at[i] == wi) return 1;
+	return 0;
+}
+
+int c15_pfc_long_case(struct vf_rng *r, long idx)
+{
+	int nstr, k, i, p, g, nf, kinds = 0, multi = 0, tot_blk = 0, tot_reset = 0, tot_cut = 0, tot_cbf = 0, tot_fired = 0, any_span = 0;
+	int deliv_after_fault = 0, tot_deliv = 0, ret = 1, nfault = 0;
+	char why[200];
+	uint8_t *pk = NULL;
+	(void)idx;
+
+	if (!wp) wp = malloc(sizeof *wp * MAXWIRE);
+	for (k = 0; k < 2; k++) {
+		if (!ps[k].dp) ps[k].dp = (k == 0 && dp) ? dp : malloc(sizeof *dp * MAXPKT);
+		if (!ps[k].dpwire) ps[k].dpwire = malloc(sizeof(int) * MAXPKT);
+		if (!ps[k].dp || !ps[k].dpwire || !wp) { vf_fail("harness:alloc", "malloc"); return 0; }
+		ps[k].n_blk = ps[k].n_dp = ps[k].n_pg = ps[k].n_got = 0;
+		ps[k].alias = ps[k].kinds = ps[k].n_reset = 0;
+	}
+	nstr = vf_chance(r, 1, 2) ? 2 : 1;
+	ps[0].pgno = vf_range(r, 1, 8) << 8 | (int)vf_below(r, 255);
+	ps[0].stream = (int)vf_below(r, 16);
+	if (nstr == 2) {
+		switch (vf_below(r, 3)) {
+		case 0: ps[1].pgno = ps[0].pgno; ps[1].stream = (ps[0].stream + 1 + (int)vf_below(r, 15)) & 15; break;      /* same page, other stream */
+		case 1: ps[1].stream = vf_chance(r, 1, 2) ? ps[0].stream : (int)vf_below(r, 16);                              /* other page of the magazine */
+			ps[1].pgno = (ps[0].pgno & 0xF00) | ((ps[0].pgno + 1 + (int)vf_below(r, 254)) & 0xFF);
+			if (ps[1].pgno == ps[0].pgno || (ps[1].pgno & 0xFF) == 0xFF) ps[1].pgno = ps[0].pgno ^ 1;
+			break;
+		default: ps[1].stream = vf_chance(r, 1, 2) ? ps[0].stream : (int)vf_below(r, 16);                             /* other magazine */
+			ps[1].pgno = (((ps[0].pgno >> 8) + (int)vf_below(r, 7)) % 8 + 1) << 8 | (vf_chance(r, 1, 2) ? (ps[0].pgno & 0xFF) : (int)vf_below(r, 255));
+			if ((ps[1].pgno & 0xF00) == (ps[0].pgno & 0xF00)) ps[1].pgno = ps[0].pgno ^ 1;
+		}
+	}
+
+	/* blocks and pages of each stream */
+	for (k = 0; k < nstr; k++) {
+		int base = (int)vf_below(r, 32), tot = 0, budget, ci;
+		use_stream(k);
+		n_blk = k == 0 ? vf_range(r, 30, vf_chance(r, 1, 3) ? 200 : 80) : vf_range(r, 5, 60);
+		budget = vf_chance(r, 1, 4) ? 9000 : 3000;
+		n_dp = 0; new_packet();
+		for (i = 0; i < n_blk; i++) {
+			struct blk *b = &blk[i];
+			int fill, after_sh;
+			memset(b, 0, sizeof *b);
+			b->app = (base + i) & 31;
+			switch (vf_below(r, 8)) {
+			case 0: case 1: fill = 0; break;
+			case 2: fill = vf_range(r, 1, 5); break;
+			case 3: fill = (39 - cur_o) % 39; break;
+			case 4: fill = ((35 + (int)vf_below(r, 4)) - cur_o + 39) % 39; break;
+			case 5: fill = (38 - cur_o + 39) % 39; break;
+			default: fill = vf_range(r, 0, 45);
+			}
+			if (n_dp > MAXPKT - 80) fill = 0;
+			while (fill-- > 0) put_filler();
+			after_sh = (cur_o % 39 + ((dp[cur_p].bp == 13 && cur_o % 3) ? 3 - cur_o % 3 : 0) + 5) % 39;
+			switch (vf_below(r, 12)) {
+			case 0: b->size = vf_range(r, 0, 3); break;
+			case 1: b->size = (39 - after_sh) % 39 + 39 * (int)vf_below(r, 3); break;
+			case 2: b->size = (39 - after_sh + vf_range(r, -2, 2) + 39) % 39 + 39 * (int)vf_below(r, 2); break;
+			case 3: b->size = vf_chance(r, 1, 8) ? vf_range(r, 200, 2047) : vf_range(r, 35, 200); break;
+			default: b->size = vf_range(r, 1, 40);
+			}
+			if (tot + b->size > budget || n_dp > MAXPKT - 80) b->size = vf_range(r, 0, 12);
+			b->cbf = vf_chance(r, 1, 50);
+			if (b->cbf && b->size < 8) b->size = 8 + (int)vf_below(r, 8);
+			tot += b->size;
+			b->data = malloc((size_t)b->size + 1);
+			if (!b->data) { vf_fail("harness:alloc", "malloc"); n_blk = i; ret = 0; goto out; }
+			vf_bytes(r, b->data, (size_t)b->size);
+			if (!b->cbf && vf_chance(r, 1, 4)) {
+				int q;
+				for (q = 0; q < b->size; q++) b->data[q] = c15_ham84(vf_chance(r, 1, 2) ? 0xC : vf_chance(r, 1, 2) ? 3 : vf_below(r, 16));
+			}
+			lay_block(i);
+			tot_cbf += b->cbf;
+		}
+		{
+			int extra = vf_chance(r, 1, 4) ? vf_range(r, 1, 3) * 39 : 0;
+			while (cur_o < 39) put_filler();
+			while (extra-- > 0) put_filler();
+		}
+		if (!ref_parse(why, sizeof why)) {
+			vf_fail("selfcheck:C15:pfc-parser-vs-packetiser", "long stream: %s", why);
+			ret = 0; goto out;
+		}
+		n_pg = 0; ci = (int)vf_below(r, 16);
+		for (p = 0; p < n_dp; ) {
+			int n;
+			switch (vf_below(r, 4)) {
+			case 0: n = 25; break;
+			case 1: n = vf_range(r, 1, 3); break;
+			default: n = vf_range(r, 1, 25);
+			}
+			if (n > n_dp - p) n = n_dp - p;
+			memset(&pg[n_pg], 0, sizeof pg[0]);
+			pg[n_pg].first = p; pg[n_pg].n = n; pg[n_pg].ci = (ci + n_pg) & 15;
+			for (i = 0; i < n; i++) { dp[p + i].page = n_pg; dp[p + i].row = i + 1; }
+			n_pg++; p += n;
+		}
+		for (i = 0; i < n_blk; i++) if (dp[blk[i].first_pkt].page != dp[blk[i].last_pkt].page) any_span = 1;
+		tot_blk += n_blk;
+	}
+	use_stream(0);
+
+	/* the multiplex: whole pages of the two streams in turn (rows follow their header), other traffic around and inside */
+	{
+		int gi[2] = { 0, 0 };
+		n_wp = 0;
+		for (;;) {
+			int left0 = ps[0].n_pg - gi[0], left1 = nstr == 2 ? ps[1].n_pg - gi[1] : 0, o, xmag;
+			struct wpk *w;
+			if (left0 + left1 == 0) break;
+			k = (int)vf_below(r, (unsigned)(left0 + left1)) < left0 ? 0 : 1;
+			o = 1 - k;
+			xmag = (nstr == 2 && ((ps[o].pgno ^ ps[k].pgno) & 0xF00)) ? (ps[o].pgno >> 8) & 7 : -1;
+			use_stream(k);
+			g = gi[k]++;
+			while (vf_chance(r, 1, 5)) decoy_page_x(r, ps[k].pgno, ps[k].stream, nstr == 2 ? ps[o].pgno : -1, nstr == 2 ? ps[o].stream : -1);
+			while (vf_chance(r, 1, 4)) noise_x(r, ps[k].pgno, 0, xmag);
+			if ((w = push(W_HDR, g))) { w->strm = k; make_header(r, w->b, ps[k].pgno, ps[k].stream, pg[g].ci, pg[g].n); }
+			for (p = pg[g].first; p < pg[g].first + pg[g].n; p++) {
+				while (vf_chance(r, 1, 6)) noise_x(r, ps[k].pgno, 1, xmag);
+				if ((w = push(W_DATA, p))) { w->strm = k; make_data(w->b, ps[k].pgno, dp[p].row, dp[p].bp, dp[p].d); }
+			}
+		}
+		while (vf_chance(r, 1, 3)) decoy_page_x(r, ps[0].pgno, ps[0].stream, nstr == 2 ? ps[1].pgno : -1, nstr == 2 ? ps[1].stream : -1);
+	}
+	if (n_wp >= MAXWIRE) { ret = 0; goto out; }       /* does not happen with the sizes above */
+
+	/* several independent faults */
+	nf = vf_chance(r, 1, 5) ? 0 : vf_range(r, 1, 8);
+	for (i = 0; i < nf; i++) {
+		int wi, tries = 0, kk = 0;
+		if (n_wp <= 0) break;
+		do wi = (int)vf_below(r, (unsigned)n_wp); while ((wp[wi].type == W_FOREIGN || wp[wi].touched) && ++tries < 100);
+		if (wp[wi].type == W_FOREIGN || wp[wi].touched) break;
+		k = wp[wi].strm;
+		use_stream(k);
+		apply_fault(r, wi, &kk);
+		ps[k].kinds |= kk; kinds |= kk; nfault++;
+	}
+
+	/* Two streams in one magazine: rows belong to the last page header of their magazine, so the rows of a page
+	   whose header is lost would be rows of the other stream's page to every receiver.  There the whole page is
+	   lost with its header (header loss with the rows present: one stream, or two in different magazines). */
+	if (nstr == 2 && !((ps[0].pgno ^ ps[1].pgno) & 0xF00))
+		for (k = 0; k < 2; k++) {
+			use_stream(k);
+			for (g = 0; g < n_pg; g++) {
+				if (!pg[g].hdr_killed) continue;
+				for (i = 0; i < n_wp; )
+					if (wp[i].type == W_DATA && wp[i].strm == k && dp[wp[i].idx].page == g) {
+						dp[wp[i].idx].killed = dp[wp[i].idx].dropped = 1;
+						memmove(&wp[i], &wp[i + 1], sizeof wp[0] * (size_t)(n_wp - i - 1)); n_wp--;
+					} else
+						i++;
+			}
+		}
+	/* per stream: where the packets are, what cannot be judged, resets */
+	for (k = 0; k < nstr; k++) {
+		use_stream(k);
+		for (p = 0; p < n_dp; p++) ps[k].dpwire[p] = -1;
+		for (i = 0; i < n_wp; i++) if (wp[i].type == W_DATA && wp[i].strm == k) ps[k].dpwire[wp[i].idx] = i;
+		for (g = 1; g < n_pg; g++)
+			if (pg[g].hdr_killed && !pg[g - 1].hdr_killed) {
+				int m = 0, f = 0;
+				for (p = pg[g - 1].first; p < pg[g - 1].first + pg[g - 1].n; p++) if (!dp[p].dropped) m = dp[p].row;
+				for (p = pg[g].first + pg[g].n - 1; p >= pg[g].first; p--) if (!dp[p].dropped) f = dp[p].row;
+				if (f == m + 1 && f <= pg[g - 1].n) ps[k].alias = 1;
+			}
+		for (i = 0; i < n_wp; i++)
+			if (wp[i].type == W_DATA && wp[i].strm == k && wp[i].idx > 0) {
+				struct dpkt *q = &dp[wp[i].idx], *q0 = q - 1;
+				if (q0->err_off >= 0 && q0->kind[q0->err_off] == K_SH && q->kind[0] == K_SH && q->owner[0] == q0->owner[q0->err_off])
+					wp[i].may_false = 1;
+			}
+		ps[k].n_reset = vf_chance(r, 1, 2) ? 0 : vf_range(r, 1, 3);
+		ps[k].ncut = 0;
+		for (i = 0; i < ps[k].n_reset; i++) {
+			ps[k].reset_at[i] = vf_range(r, 1, n_wp - 1);
+			mark_reset(k, ps[k].reset_at[i], 0);
+		}
+		/* packets of the other stream that this receiver cannot tell from its own (see use_xevents) */
+		ps[k].n_x = 0;
+		for (i = 0; i < n_wp; i++)
+			if (wp[i].damaged && wp[i].type != W_FOREIGN && wp[i].strm != k) {
+				int x = c15_unham84(wp[i].b[0]) < 0 || c15_unham84(wp[i].b[1]) < 0;
+				if (wp[i].type == W_HDR) {
+					x |= c15_unham84(wp[i].b[2]) < 0 || c15_unham84(wp[i].b[3]) < 0;
+					if (ps[wp[i].strm].pgno == ps[k].pgno)
+						x |= c15_unham84(wp[i].b[4]) < 0 || c15_unham84(wp[i].b[5]) < 0 || c15_unham84(wp[i].b[6]) < 0 || c15_unham84(wp[i].b[7]) < 0;
+				}
+				if (x) { mark_reset(k, i + 1, 1); ps[k].n_x++; }
+			}
+		tot_reset += ps[k].n_reset; tot_cut += ps[k].ncut;
+	}
+	use_stream(0);
+
+	if (vf_verbose) {
+		for (k = 0; k < nstr; k++) {
+			use_stream(k);
+			vf_log("stream %d: page %x stream %d, %d blocks, %d packets, %d pages, alias=%d\n", k, ps[k].pgno, ps[k].stream, n_blk, n_dp, n_pg, ps[k].alias);
+			for (g = 0; g < n_pg; g++) vf_log(" page %d: packets %d..%d ci=%d hdr_killed=%d rst_before=%d\n", g, pg[g].first, pg[g].first + pg[g].n - 1, pg[g].ci, pg[g].hdr_killed, pg[g].rst_before);
+			for (p = 0; p < n_dp; p++) if (dp[p].killed || dp[p].err_off >= 0 || dp[p].rst) vf_log(" packet %d (page %d row %d) killed=%d err_off=%d rst=%d\n", p, dp[p].page, dp[p].row, dp[p].killed, dp[p].err_off, dp[p].rst);
+		}
+		use_stream(0);
+		for (i = 0; i < n_wp; i++)
+			vf_log("wire %d: %s strm=%d idx=%d%s%s %s\n", i, wp[i].type == W_HDR ? "HDR" : wp[i].type == W_DATA ? "DATA" : "foreign", wp[i].strm, wp[i].idx,
+			       wp[i].damaged ? " damaged" : "", wp[i].may_false ? " may_false" : "", vf_hex(wp[i].b, 42));
+	}
+	vf_sample("pfc-long %d stream(s): page %x stream %d: %d blocks in %d packets / %d pages%s, wire %d, %d faults 0x%x, resets %d, callbacks to return FALSE %d",
+		  nstr, ps[0].pgno, ps[0].stream, ps[0].n_blk, ps[0].n_dp, ps[0].n_pg, nstr == 2 ? " + second stream" : "", n_wp, nfault, kinds, tot_reset, tot_cbf);
+
+	/* 1. frame interface: several rows of a page per call, lines of other services in between; a call ends
+	 *    before a reset and after a packet for which FALSE may come back (feed_frame stops there) */
+	vf_phase("vbi_pfc_demux_feed_frame");
+	for (k = 0; k < nstr; k++) {
+		start_pass(k);
+		if (!ps[k].dx) { vf_fail("harness:alloc", "vbi_pfc_demux_new failed"); ret = 0; goto out; }
+	}
+	for (i = 0; i < n_wp; ) {
+		vbi_sliced sl[24];
+		int map[24], n = 0, nt = 0, want = vf_range(r, 1, 9), clean = 1, first = i, rows[2] = { 0, 0 };
+		memset(sl, 0, sizeof sl);
+		for (k = 0; k < nstr; k++) do_pfc_resets(k, i);
+		if (vf_chance(r, 1, 2)) { sl[n].id = VBI_SLICED_WSS_625; sl[n].line = 23; map[n++] = -1; }
+		while (i < n_wp && nt < want) {
+			if (nt > 0 && reset_here(nstr, i)) break;
+			if (vf_chance(r, 1, 6)) { sl[n].id = VBI_SLICED_CAPTION_625; sl[n].line = 22; sl[n].data[0] = 0x80; sl[n].data[1] = 0x80; map[n++] = -1; }
+			sl[n].id = (i & 1) ? VBI_SLICED_TELETEXT_B : VBI_SLICED_TELETEXT_B_L10_625;
+			sl[n].line = (uint32_t)(6 + nt);
+			memcpy(sl[n].data, wp[i].b, 42);
+			map[n++] = i; nt++;
+			if (wp[i].type == W_DATA) rows[wp[i].strm]++;
+			i++;
+			if (wp[i - 1].damaged || wp[i - 1].may_false) { clean = 0; break; }
+		}
+		if (vf_chance(r, 1, 3)) { sl[n].id = VBI_SLICED_VPS; sl[n].line = 16; memset(sl[n].data, 0x55, 13); map[n++] = -1; }
+		if (rows[0] > 1 || rows[1] > 1) multi++;
+		for (k = 0; k < nstr; k++) {
+			const vbi_sliced *s2 = sl;
+			const int *m2 = map;
+			int n2 = n;
+			while (n2 > 0) {
+				vbi_bool ok;
+				ps[k].cbf_now = -1;
+				ok = vbi_pfc_demux_feed_frame(ps[k].dx, s2, (unsigned)n2);
+				if (ps[k].cbf_now >= 0) {
+					int wi = ps[k].dpwire[blk_st[k][ps[k].cbf_now].last_pkt], j;
+					if (ok) {
+						vf_fail("model:C15:pfc:cb-false-not-propagated", "feed_frame returned TRUE although the callback returned FALSE for block %d (completed by wire packet %d)", ps[k].cbf_now, wi);
+						break;
+					}
+					for (j = 0; j < n2 && m2[j] != wi; j++) ;
+					j++;
+					s2 += j; m2 += j; n2 -= j;      /* the library stops at that line: feed the rest */
+					continue;
+				}
+				if (clean && !ok && !ps[k].alias)
+					vf_fail("model:C15:pfc:feed-false-on-good-packet", "long stream: context %d: feed_frame returned FALSE for wire packets %d..%d which carry no uncorrectable error", k, first, i - 1);
+				break;
+			}
+		}
+	}
+	for (k = 0; k < nstr; k++) {
+		judge_long(k, "feed_frame");
+		free_got_k(k);
+		vbi_pfc_demux_delete(ps[k].dx);
+	}
+
+	/* 2. packet interface, exact 42 byte heap buffer, every context sees every packet */
+	vf_phase("vbi_pfc_demux_feed");
+	pk = malloc(42);
+	if (!pk) { vf_fail("harness:alloc", "malloc"); ret = 0; goto out; }
+	for (k = 0; k < nstr; k++) {
+		start_pass(k);
+		if (!ps[k].dx) { vf_fail("harness:alloc", "vbi_pfc_demux_new failed"); ret = 0; goto out; }
+	}
+	for (i = 0; i < n_wp; i++)
+		for (k = 0; k < nstr; k++) {
+			vbi_bool ok;
+			do_pfc_resets(k, i);
+			memcpy(pk, wp[i].b, 42);
+			ps[k].cbf_now = -1;
+			ok = vbi_pfc_demux_feed(ps[k].dx, pk);
+			if (ps[k].cbf_now >= 0) {
+				if (ok) vf_fail("model:C15:pfc:cb-false-not-propagated", "feed returned TRUE for wire packet %d although the callback returned FALSE for block %d", i, ps[k].cbf_now);
+			} else if (!ok && !wp[i].damaged && !wp[i].may_false && !ps[k].alias)
+				vf_fail("model:C15:pfc:feed-false-on-good-packet", "long stream: context %d: feed returned FALSE for wire packet %d %s which carries no uncorrectable error", k, i, vf_hex(pk, 42));
+		}
+	for (k = 0; k < nstr; k++) {
+		int firstfault = -1;
+		judge_long(k, "feed");
+		if (ps[k].alias) vf_count("pfc_long_not_judged_undetectable_header_loss", 1);
+		for (p = 0; p < n_dp && firstfault < 0; p++)
+			if (dp[p].killed || dp[p].err_off >= 0 || dp[p].cbf_after) firstfault = p;
+		for (i = 0; i < n_blk; i++) {
+			tot_deliv += blk[i].ndeliv;
+			if (firstfault >= 0 && blk[i].first_pkt > firstfault) deliv_after_fault += blk[i].ndeliv;
+		}
+		tot_fired += ps[k].nfired;
+		free_got_k(k);
+		vbi_pfc_demux_delete(ps[k].dx);
+	}
+
+	vf_count("pfc_long_streams", nstr);
+	vf_count("pfc_long_blocks_sent", tot_blk);
+	vf_count("pfc_long_blocks_delivered", tot_deliv);
+	vf_count("pfc_long_blocks_delivered_after_a_fault", deliv_after_fault);
+	vf_count("pfc_long_pages", ps[0].n_pg + (nstr == 2 ? ps[1].n_pg : 0));
+	vf_count("pfc_long_packets_fed", n_wp);
+	vf_count("pfc_long_faults", nfault);
+	vf_count("pfc_long_resets", tot_reset);
+	vf_count("pfc_long_reset_with_block_in_progress", tot_cut);
+	vf_count("pfc_long_callback_false", tot_fired);
+	vf_count("pfc_long_frames_with_several_rows", multi);
+	if (nstr == 2) vf_count("pfc_long_two_contexts", 1);
+	if (any_span) vf_count("pfc_long_block_spans_pages", 1);
+	vf_sig("pfc-long blocks=%s two=%d drop=%d hdr=%d hamm=%d nf=%s reset=%s cbf=%d", tot_blk < 60 ? "<60" : tot_blk < 120 ? "<120" : "120+", nstr == 2,
+	       !!(kinds & 1), !!(kinds & 2), !!(kinds & (4 | 8)), nfault == 0 ? "0" : nfault < 3 ? "1-2" : "3+",
+	       tot_cut ? "in-block" : tot_reset ? "between" : "none", tot_fired ? 1 : 0);
+out:
+	free(pk);
+	for (k = 0; k < 2; k++) {
+		use_stream(k);
+		for (i = 0; i < n_blk; i++) { free(blk[i].data); blk[i].data = NULL; }
+		free_got_k(k);
+		n_blk = 0;
+	}
+	use_stream(0);
+	return ret;
 }
 
 void c15_pfc_selftest(void)
